@@ -33,7 +33,18 @@ def contains(root, node):
 
 def ast_guards(func, node):
     """[(cond_expr, truth)] structural path condition of node: enclosing if/else arms, conditional operators,
-    and short-circuit operands to the left of node. (Early exits are *not* reflected here; see CFG.guards_of.)"""
+    and short-circuit operands to the left of node, with `A && B` holding split into A, B holding and `A || B` failing split
+    into A, B failing - so nested ifs and one combined condition give the same guards. (Early exits are *not* reflected here;
+    see CFG.guards_of.)"""
+    out = []
+    for (c, t) in _ast_guards_raw(func, node):
+        parts = conjuncts(c) if t else disjuncts(c)
+        for p_ in parts:
+            out.append((p_, t))
+    return out
+
+
+def _ast_guards_raw(func, node):
     out = []
     cur = node
     for anc in func.ancestors(node):
